@@ -117,3 +117,21 @@ Print Assumptions C08_spike_distance_mirror.
    repaired by fix commit 6b5df87) is a valid input, and mirroring keeps validity *)
 Example C08_nonvacuous : valid 0 1 [1/4; 5/8; 1] /\ valid 0 1 [0] /\ valid 0 1 (mirror_train 0 1 [1/4; 5/8; 1]).
 Proof. split; [valid_tac|split; [valid_tac|]]. apply valid_mirror. valid_tac. Qed.
+
+(* ---- executed instance (Q, extracted to OCaml and run against /repo) = the real-number functions
+   the theorems above are about: kernel-checked parametricity bridge (Bridge.v).  qL = map Q2R etc. ---- *)
+From Coq Require Import QArith Qreals.
+From PS Require Import Bridge.
+Local Close Scope Q_scope.
+Theorem C08_exec_isi_profile_py_transfer : forall (s1 s2 : list Q) (ts te m : Q), qLL (isi_profile_py QOps s1 s2 ts te m) = isi_profile_py ROps (qL s1) (qL s2) (Q2R ts) (Q2R te) (Q2R m).
+Proof. exact isi_profile_py_transfer. Qed.
+Print Assumptions C08_exec_isi_profile_py_transfer.
+Theorem C08_exec_spike_profile_py_transfer : forall (t1 t2 : list Q) (ts te m : Q) (ri : bool), qLLL (spike_profile_py QOps t1 t2 ts te m ri) = spike_profile_py ROps (qL t1) (qL t2) (Q2R ts) (Q2R te) (Q2R m) ri.
+Proof. exact spike_profile_py_transfer. Qed.
+Print Assumptions C08_exec_spike_profile_py_transfer.
+Theorem C08_exec_sync_kernel_transfer : forall (s1 s2 : list Q) (ts te mt mrts : Q), map q3 (sync_kernel QOps s1 s2 ts te mt mrts) = sync_kernel ROps (qL s1) (qL s2) (Q2R ts) (Q2R te) (Q2R mt) (Q2R mrts).
+Proof. exact sync_kernel_transfer. Qed.
+Print Assumptions C08_exec_sync_kernel_transfer.
+Theorem C08_exec_order_kernel_transfer : forall (s1 s2 : list Q) (ts te mt mrts : Q), map q3 (order_kernel QOps s1 s2 ts te mt mrts) = order_kernel ROps (qL s1) (qL s2) (Q2R ts) (Q2R te) (Q2R mt) (Q2R mrts).
+Proof. exact order_kernel_transfer. Qed.
+Print Assumptions C08_exec_order_kernel_transfer.
